@@ -84,6 +84,7 @@ class SymbolicExpression(Generic[T], ABC):
     _node_: RWXNode = field(init=False, default=None, repr=False)
     _id_expression_map_: ClassVar[Dict[int, SymbolicExpression]] = {}
     _conclusion_: typing.Set[Conclusion] = field(init=False, default_factory=set)
+    _selects_conclusions_: ClassVar[bool] = False
     _symbolic_expression_stack_: ClassVar[List[SymbolicExpression]] = []
     _yield_when_false_: bool = field(init=False, repr=False, default=False)
     _is_false_: bool = field(init=False, repr=False, default=False)
@@ -1773,7 +1774,10 @@ class ElseIf(OR):
                 any_left = True
                 left_value.update(sources)
                 if self.left._is_false_:
-                    if is_caching_enabled() and self.right_cache.check(left_value):
+                    # The result cache holds truth values, not which conclusion a conclusion selector selected: a right
+                    # operand that selects conclusions is evaluated, never replayed.
+                    if (is_caching_enabled() and not self.right._selects_conclusions_
+                            and self.right_cache.check(left_value)):
                         yield from self.yield_final_output_from_cache(left_value, self.right_cache)
                         continue
                     right_prev = self.right._eval_parent_
